@@ -452,7 +452,7 @@ NP_FUNCS = {
     'numpy.dot': lambda a, b: np.dot(a, b), 'numpy.inner': lambda a, b: np.inner(a, b), 'numpy.outer': lambda a, b: np.outer(a, b),
     'numpy.cross': lambda a, b: np.cross(a, b), 'numpy.einsum': lambda spec, *ops: np.einsum(spec, *[np.asarray(o, dtype=object) for o in ops]),
     'numpy.transpose': lambda a, *ax: np.transpose(a, *ax), 'numpy.trace': lambda a: np.trace(a), 'numpy.sum': _sum,
-    'numpy.linalg.norm': lambda v, axis=None: _norm_axis(v, axis),
+    'numpy.linalg.norm': lambda v, axis=None, keepdims=False, **k: (np.expand_dims(_norm_axis(v, axis), int(axis)) if (keepdims and axis is not None) else _norm_axis(v, axis)),
     'numpy.linalg.det': lambda a: _mat(a).det(), 'numpy.linalg.inv': lambda a: _unmat(_mat(a).inv()),
     'numpy.linalg.solve': lambda a, b: _unmat(_mat(a).solve(_mat(b))) if np.ndim(b) == 2 else arr(list(_mat(a).solve(sp.Matrix(list(b))))),
     'numpy.isclose': _isclose, 'numpy.allclose': lambda a, b, **k: _all(_isclose(a, b)),
@@ -492,7 +492,28 @@ NP_FUNCS = {
     'numpy.real': lambda x: vmap(sp.re, x), 'numpy.imag': lambda x: vmap(sp.im, x),
     'copy.deepcopy': lambda x: _copy(x), 'copy.copy': lambda x: _copy(x),
 }
-NP_CONSTS = {'numpy.pi': sp.pi, 'numpy.e': sp.E, 'numpy.inf': sp.oo, 'numpy.newaxis': None}
+NP_CONSTS = {'numpy.pi': sp.pi, 'numpy.e': sp.E, 'numpy.inf': sp.oo, 'numpy.newaxis': None, 'math.pi': sp.pi, 'math.e': sp.E, 'math.inf': sp.oo}
+
+
+def _pylist(x):
+    return list(x) if not is_arr(x) else [x[i] for i in range(x.shape[0])]
+
+
+import itertools as _it
+import functools as _ft
+NP_FUNCS.update({
+    'itertools.product': lambda *its, repeat=1: list(_it.product(*[_pylist(i) for i in its], repeat=int(repeat))),
+    'itertools.permutations': lambda it, r=None: list(_it.permutations(_pylist(it), None if r is None else int(r))),
+    'itertools.combinations': lambda it, r: list(_it.combinations(_pylist(it), int(r))),
+    'itertools.chain': lambda *its: [v for i in its for v in _pylist(i)],
+    'itertools.repeat': lambda v, n_: [v] * int(n_),
+    'functools.reduce': lambda f, xs, *init: _ft.reduce(f, _pylist(xs), *init),
+    'math.sqrt': lambda x: sp.sqrt(x), 'math.cos': lambda x: sp.cos(x), 'math.sin': lambda x: sp.sin(x), 'math.tan': lambda x: sp.tan(x), 'math.acos': lambda x: sp.acos(x), 'math.asin': lambda x: sp.asin(x),
+    'math.atan': lambda x: sp.atan(x), 'math.atan2': lambda y, x: sp.atan2(y, x), 'math.log': lambda x, *b: sp.log(x, *b), 'math.exp': lambda x: sp.exp(x), 'math.floor': lambda x: sp.floor(x), 'math.ceil': lambda x: sp.ceiling(x),
+    'math.fabs': lambda x: sp.Abs(x), 'math.radians': lambda x: x * sp.pi / 180, 'math.degrees': lambda x: x * 180 / sp.pi, 'math.gcd': lambda *a: sp.Integer(__import__('math').gcd(*[int(v) for v in a])),
+    'math.hypot': lambda *a: sp.sqrt(sum(v ** 2 for v in a)), 'math.isclose': lambda a, b, **k: _isclose(a, b), 'math.prod': lambda xs: sp.Mul(*_pylist(xs)),
+    'copy.copy': lambda x: (x.copy() if is_arr(x) else (list(x) if isinstance(x, list) else (dict(x) if isinstance(x, dict) else x))),
+})
 
 
 def _copy(x):
@@ -641,7 +662,7 @@ class SymEval:
     MAX_PATHS = 256
 
     def __init__(self, aliases=None, funcs=None, decide=None, opaque_calls=True, max_depth=6):
-        self.aliases = {'np': 'numpy', 'numpy': 'numpy', 'deepcopy': 'copy.deepcopy', 'copy': 'copy'}
+        self.aliases = {'np': 'numpy', 'numpy': 'numpy', 'deepcopy': 'copy.deepcopy', 'copy': 'copy', 'itertools': 'itertools', 'math': 'math', 'functools': 'functools'}
         self.aliases.update(aliases or {})
         self.funcs = dict(funcs or {})
         self.decide = decide
@@ -1602,6 +1623,10 @@ class SymEval:
             paths = nxt
             if len(paths) > self.MAX_PATHS:
                 raise PathLimit('loop forks too many paths')
+        if s.orelse:          # `for ... else`: the else suite runs on the paths that left the loop without `break`
+            fin = [q for q in paths if q.done is not None]
+            live = [q for q in paths if q.done is None]
+            paths = fin + (self.block(s.orelse, live) if live else [])
         return paths + broke
 
     MAX_ITER = 400
